@@ -551,7 +551,7 @@ func run(c *vf.Ctx) {
 	c.Floor("writer entry points", c.SeenCount("writers"), 9)
 	c.Floor("small-buffer sync cases", c.Counter("small_buffer_cases"), c.N(400, 6000))
 	c.Floor("malformed-length cases", c.Counter("malformed_cases"), c.N(1500, 20000))
-	c.Floor("sideband round trips", c.Counter("sideband_roundtrips"), c.N(600, 8000))
+	c.Floor("sideband round trips", c.Counter("sideband_roundtrips"), c.N(600, 7000))
 	c.Assume("the pkt-line wire format of gitprotocol-common (4 hex digits incl. themselves, 0000/0001/0002 specials, max 65520) is the model; a reader may return (0, nil) and may return data together with io.EOF (io.Reader contract)")
 	c.Assume("'rejected without losing synchronisation' is checked where resynchronisation is defined: a Read buffer too small for a packet (documented to drain the packet), and a malformed length must surface as an error at exactly that packet with all earlier packets intact; pktline.Scanner stopping at an ERR line is by design")
 }
